@@ -26,6 +26,7 @@ type Obligation struct {
 	regionScript string // script re-verifying the obligation outside a known-finding region
 	replayed     bool
 	goal, path   string
+	nlines       int
 	group        *oblGroup
 	sorts        *Sorts
 	oracle       string     // script evaluating the clause on concrete inputs/results (replay oracle)
@@ -45,6 +46,7 @@ type oblGroup struct {
 	name    string
 	members []*Obligation
 	script  string
+	nlines  int
 }
 
 type modelVar struct {
@@ -70,28 +72,34 @@ type Gen struct {
 	nf    int
 	obls  []*Obligation
 
-	strConsts  map[string]string
-	heapSorts  map[string]string
-	heapOrder  []string
-	notes      map[string]bool // assumption notes (trusted calls, havocs)
-	pureDone   map[string]bool
-	pureDecls  []string // declare-fun / define-fun lines for spec functions (go after datatypes)
-	axiomsDone bool
-	globals    map[string]string
-	counters   map[string]int
-	entry      *State
-	stack      []*ssa.Function
-	needDivFns bool
-	groups     []*oblGroup
-	useElemFn  bool
-	elemFns    map[string]string
-	needStrEq  bool
-	needStrCmp bool
-	needStrNum bool
-	needUni    map[string]bool
-	params     []modelVar
-	knownDyn   map[string]types.Type // param name -> dynamic type from "requires dyn(p) == T"
-	fnKey      string
+	strConsts   map[string]string
+	heapSorts   map[string]string
+	heapOrder   []string
+	notes       map[string]bool // assumption notes (trusted calls, havocs)
+	pureDone    map[string]bool
+	pureDecls   []string // declare-fun / define-fun lines for spec functions (go after datatypes)
+	axiomsDone  bool
+	globals     map[string]string
+	counters    map[string]int
+	entry       *State
+	stack       []*ssa.Function
+	needDivFns  bool
+	needReMatch bool
+	freshRefs   map[string]bool
+	defs        map[string]string
+	paramEnd    int
+	late        []string
+	needI2F     bool
+	groups      []*oblGroup
+	useElemFn   bool
+	elemFns     map[string]string
+	needStrEq   bool
+	needStrCmp  bool
+	needStrNum  bool
+	needUni     map[string]bool
+	params      []modelVar
+	knownDyn    map[string]types.Type // param name -> dynamic type from "requires dyn(p) == T"
+	fnKey       string
 }
 
 func newGen(P *Program, fn *ssa.Function, con *Contract, mode IntMode) *Gen {
@@ -121,6 +129,10 @@ func (g *Gen) define(prefix, srt, expr string) string {
 	}
 	n := g.fresh(prefix)
 	g.emit(fmt.Sprintf("(define-fun %s () %s %s)", n, srt, expr))
+	if g.defs == nil {
+		g.defs = map[string]string{}
+	}
+	g.defs[n] = expr
 	return n
 }
 
@@ -267,8 +279,8 @@ func (g *Gen) oblige(kind, site, path, goal, clause string) *Obligation {
 		g.obls = append(g.obls, o)
 		return o
 	}
-	body := strings.Join(g.lines, "\n")
-	o.script = body + "\n(assert " + and(path, not(goal)) + ")\n"
+	o.nlines = len(g.lines)
+	o.script = "(assert " + and(path, not(goal)) + ")\n"
 	o.goal, o.path = goal, path
 	o.model = g.params
 	o.sorts = g.S
@@ -288,17 +300,14 @@ func (g *Gen) groupObligations(name string, obls []*Obligation) {
 		if path == "" {
 			path = o.path
 		}
-		if o.path != path {
-			return
-		}
 		ms = append(ms, o)
 		goals = append(goals, o.goal)
 	}
 	if len(ms) < 2 {
 		return
 	}
-	gr := &oblGroup{name: name, members: ms}
-	gr.script = strings.Join(g.lines, "\n") + "\n(assert " + and(path, not(and(goals...))) + ")\n"
+	gr := &oblGroup{name: name, members: ms, nlines: len(g.lines)}
+	gr.script = "(assert " + and(path, not(and(goals...))) + ")\n"
 	for _, o := range ms {
 		o.group = gr
 	}
@@ -312,8 +321,8 @@ func (g *Gen) cover(site, path string) {
 	if g.con != nil {
 		o.Props = g.con.Props
 	}
-	body := strings.Join(g.lines, "\n")
-	o.script = body + "\n(assert " + path + ")\n"
+	o.nlines = len(g.lines)
+	o.script = "(assert " + path + ")\n"
 	g.obls = append(g.obls, o)
 }
 
@@ -329,14 +338,20 @@ func (g *Gen) finalize() {
 		hb.WriteString("\n")
 	}
 	head := "(set-option :produce-models true)\n(set-logic ALL)\n" + pre + hb.String()
+	body := func(n int) string {
+		if n <= g.paramEnd || len(g.late) == 0 {
+			return strings.Join(g.lines[:n], "\n") + "\n"
+		}
+		return strings.Join(g.lines[:g.paramEnd], "\n") + "\n" + strings.Join(g.late, "\n") + "\n" + strings.Join(g.lines[g.paramEnd:n], "\n") + "\n"
+	}
 	for _, gr := range g.groups {
-		gr.script = head + gr.script + "(check-sat)\n"
+		gr.script = head + body(gr.nlines) + gr.script + "(check-sat)\n"
 	}
 	for _, o := range g.obls {
 		if o.script == "TRIVIAL" {
 			continue
 		}
-		o.script = head + o.script + "(check-sat)\n"
+		o.script = head + body(o.nlines) + o.script + "(check-sat)\n"
 		o.SmtBytes = len(o.script)
 		if o.oracle != "" {
 			o.oracle = head + o.oracle + "(check-sat)\n"
@@ -351,8 +366,9 @@ const goDivDefs = `(define-fun go_div ((a Int) (b Int)) Int (ite (>= a 0) (ite (
 // ---- heap -------------------------------------------------------------------------------
 
 type Heap struct {
-	vals map[string]string
-	base *Epoch
+	vals  map[string]string
+	base  *Epoch
+	dirty string // SMT Bool: some pre-existing (not freshly allocated) location or an unknown one may have been modified ("" = false)
 }
 
 type Epoch struct {
@@ -387,10 +403,18 @@ func (h *Heap) get(g *Gen, key string) string {
 	return h.base.get(key)
 }
 
-func (h *Heap) set(key, v string) { h.vals[key] = v }
+func (h *Heap) set(key, v string) {
+	h.vals[key] = v
+	if !strings.HasPrefix(key, "G:") {
+		h.dirty = "true"
+	}
+}
+
+// setFresh records a write that only touches a freshly allocated object.
+func (h *Heap) setFresh(key, v string) { h.vals[key] = v }
 
 func (h *Heap) clone() *Heap {
-	n := &Heap{vals: make(map[string]string, len(h.vals)), base: h.base}
+	n := &Heap{vals: make(map[string]string, len(h.vals)), base: h.base, dirty: h.dirty}
 	for k, v := range h.vals {
 		n.vals[k] = v
 	}
@@ -433,7 +457,9 @@ func (e *Epoch) get(key string) string {
 			for i := len(vals) - 2; i >= 0; i-- {
 				expr = ite(e.parts[i].cond, vals[i], expr)
 			}
-			v = g.define("hm", srt, expr)
+			// a declared constant (not a macro) so that heap terms stay atomic inside quantifier patterns
+			v = g.declare("hm", srt)
+			g.assume("(= " + v + " " + expr + ")")
 		}
 	}
 	e.memo[key] = v
@@ -448,12 +474,23 @@ func (g *Gen) mergeHeaps(parts []epochPart) *Heap {
 		return parts[0].h.clone()
 	}
 	g.nf++
-	return &Heap{vals: map[string]string{}, base: &Epoch{id: g.nf, parts: parts, memo: map[string]string{}, g: g}}
+	var ds []string
+	for _, p := range parts {
+		if p.h.dirty != "" && p.h.dirty != "false" {
+			ds = append(ds, and(p.cond, p.h.dirty))
+		}
+	}
+	d := ""
+	if len(ds) > 0 {
+		d = g.define("dirty", "Bool", or(ds...))
+	}
+	return &Heap{vals: map[string]string{}, base: &Epoch{id: g.nf, parts: parts, memo: map[string]string{}, g: g}, dirty: d}
 }
 
 // havocHeap returns a heap where every non-ghost key is unknown; ghost keys (G:) are kept unless alsoGhost.
 func (g *Gen) havocHeap(h *Heap, alsoGhost bool) *Heap {
 	n := g.newRootHeap()
+	n.dirty = "true"
 	if !alsoGhost {
 		n.base.ghostPrev = h
 	}
@@ -497,4 +534,24 @@ func (g *Gen) heapKeys() []string {
 	out := append([]string(nil), g.heapOrder...)
 	sort.Strings(out)
 	return out
+}
+
+// posOf renders the source position of an instruction as file:line (relative to the repository).
+func (g *Gen) posOf(in ssa.Instruction) string {
+	p := in.Pos()
+	if !p.IsValid() {
+		// returns have no position of their own: use the last positioned instruction of the block
+		b := in.Block()
+		for i := len(b.Instrs) - 1; i >= 0; i-- {
+			if b.Instrs[i].Pos().IsValid() {
+				p = b.Instrs[i].Pos()
+				break
+			}
+		}
+	}
+	if !p.IsValid() {
+		return ""
+	}
+	ps := g.P.prog.Fset.Position(p)
+	return strings.TrimPrefix(ps.Filename, g.P.repo+"/") + ":" + fmt.Sprint(ps.Line)
 }
